@@ -39,8 +39,12 @@ ENTRY = dict(
                  "process unique; processes built one after the other share no id; flow ends exist and list the flow; "
                  "start without incoming, end without outgoing; one shape per flow node, one edge per flow; edges "
                  "start/end on the border of their shapes; distinct nodes of one level get distinct rows (any graph) and "
-                 "shapes never overlap when gaps >= sizes (within and across processes). Negative side: "
-                 "C19_counterexample_activity_not_stored (AddActivity drops AdHocSubProcess/Transaction/Activity), "
+                 "shapes never overlap when gaps >= sizes (within and across processes). The set of types the AddActivity "
+                 "switch stores is an extracted fact and a parameter of model, theorems and driver: C19_general (switch "
+                 "complete => full statement) / C19_counterexample_activity_not_stored (any unstored activity type => "
+                 "explicit witness script) / C19_holds_partial (stored types, any switch); current_stored_dichotomy and "
+                 "current_C19 instantiate them at the extracted switch, so completing the switch needs no model change; a "
+                 "type that stops being stored is reported as activity_not_stored_<Type>. Negative side also: "
                  "duplicate_generated_id_witness (a repeating oracle gives equal ids). Tested only: XML round trip, engine "
                  "run, uniqueness of diagram/shape/edge/participant ids (their generation is modelled and diffed)."),
     assumptions=[
